@@ -248,6 +248,8 @@ def method (st : IS) (name : String) (recv : V) (args : List V) : M V := do
     if name == "shape" then pure (.shape t.shape)
     else if name == "device" then pure (.dev t.dev)
     else if name == "valid" then pure (.bool true)
+    -- every tensor value of this model is a valid one (the invalid-tensor case is property C07's family)
+    else if name == "check_valid" then pure .unit
     else stuck s!"Tensor::{name}"
   | .node n =>
     if name == "shape" then pure (.shape n.shape)
